@@ -210,7 +210,7 @@ func (in *Interp) recordOp(kind string, child int) {
 		if !strings.HasPrefix(p.Filename, in.cfg.RepoDir+"/") {
 			continue
 		}
-		rec.Where = append(rec.Where, fmt.Sprintf("%s:%d:%d#%d", strings.TrimPrefix(p.Filename, in.cfg.RepoDir+"/"), p.Line, p.Column, fr.serial))
+		rec.Where = append(rec.Where, fmt.Sprintf("%s:%d:%d#%d.%d", strings.TrimPrefix(p.Filename, in.cfg.RepoDir+"/"), p.Line, p.Column, fr.serial, fr.icount))
 		if len(rec.Where) >= 4 {
 			break
 		}
